@@ -43,7 +43,12 @@ type policy struct {
 	PC2  string `json:"pc2,omitempty"`
 	Rot2 int    `json:"rot2,omitempty"`
 	Seed int    `json:"seed,omitempty"`
+	// Clock: seconds added to the wall-clock instant every tool process starts at (baseClock; the overlay owns time.Now)
+	Clock int64 `json:"clock,omitempty"`
 }
+
+// every tool process starts at this wall-clock instant (plus the policy's deviation), whatever the real time is
+const baseClock = 1700000000
 
 func (c toolCase) timeout() time.Duration {
 	if c.Retry {
@@ -167,7 +172,7 @@ func runCase(c toolCase, p policy, wantSites bool) (rr runResult) {
 	for a := 0; a < attempts; a++ {
 		cmd := exec.Command(filepath.Join(binDir, c.Tool), args...)
 		cmd.Dir = dir
-		cmd.Env = append(os.Environ(), "VERIF_MAP="+p.env())
+		cmd.Env = append(os.Environ(), "VERIF_MAP="+p.env(), fmt.Sprintf("VERIF_CLOCK=%d", baseClock+p.Clock))
 		var dump *os.File
 		if wantSites {
 			dump, _ = os.Create(filepath.Join(dir, ".mapdump"))
@@ -349,6 +354,7 @@ func writeCorpus() {
 		"data.basm":   "%section code .romtext iomode:async\n\tentry _start\n_start:\n\trset r0, 1\n\tinc r0\n\tr2o r0, o0\n\tj _start\n%endsection\n\n%section consts .romdata\n\ttab db 0x01, 0x02, 0x03, 0x04, 0x05\n\tone db 0x2a\n%endsection\n\n%meta cpdef cpu romcode: code, romdata: consts\n%meta ioatt lo cp:cpu, index:0, type:output\n%meta ioatt lo cp:bm, index:0, type:output\n%meta bmdef global registersize:8\n",
 		"movs.basm":   "%section code .romtext iomode:async\n\tentry _start\n_start:\n\tmov r0, 3\n\tmov r1, 200\n\tmov r2, r0\n\tadd r2, r1\n\tmov o0, r2\n\tj _start\n%endsection\n\n%meta cpdef cpu romcode: code\n%meta ioatt lo cp:cpu, index:0, type:output\n%meta ioatt lo cp:bm, index:0, type:output\n%meta bmdef global registersize:8\n",
 		"tfrag.basm":  "%meta bmdef global registersize:8\n%fragment addk\n\trset r1, {{.Params.k}}\n\tadd r0, r1\n%endfragment\n%section alpha .romtext k:3\n\tentry _start\n_start:\n\ti2r r0, i0\n\tcall8s addk\n\tr2o r0, o0\n\tj _start\n%endsection\n%section beta .romtext k:5\n\tentry _start\n_start:\n\ti2r r0, i0\n\tcall8s addk\n\tr2o r0, o0\n\tj _start\n%endsection\n%section gamma .romtext k:9\n\tentry _start\n_start:\n\ti2r r0, i0\n\tcall8s addk\n\tr2o r0, o0\n\tj _start\n%endsection\n%meta cpdef cpa romcode:alpha\n%meta cpdef cpb romcode:beta\n%meta cpdef cpc romcode:gamma\n%meta ioatt l0 cp:bm, type:input, index:0\n%meta ioatt l0 cp:cpa, type:input, index:0\n%meta ioatt l1 cp:cpa, type:output, index:0\n%meta ioatt l1 cp:cpb, type:input, index:0\n%meta ioatt l2 cp:cpb, type:output, index:0\n%meta ioatt l2 cp:cpc, type:input, index:0\n%meta ioatt l3 cp:cpc, type:output, index:0\n%meta ioatt l3 cp:bm, type:output, index:0\n",
+		"helper.basm": "%meta bmdef global registersize:8\n%meta cpdef cpa romcode:mul\n%meta cpdef cpb romcode:plain\n\n%section mul .romtext\n\tentry _start\n_start:\n\trset r0, 3\n\trset r1, 5\n\tmultp r0, r1\n\taddp r0, r1\n\tj _start\n%endsection\n\n%section plain .romtext\n\tentry _start\n_start:\n\trset r0, 3\n\tmultp r0, r0\n\tinc r0\n\tj _start\n%endsection\n",
 		"t.go":        "package main\n\nimport (\n\t\"bondgo\"\n)\n\nfunc main() {\n\tvar out0 bondgo.Output\n\tvar a uint8\n\tvar b uint8\n\tout0 = bondgo.Make(bondgo.Output, 3)\n\ta = 1\n\tb = 2\n\ta = a + b\n\tbondgo.IOWrite(out0, a)\n}\n",
 		"cfg.json":    "{\"DataType\":\"float32\",\"Params\":{\"expprec\":\"10\"}}\n",
 		"sb.json":     "{\"Rules\":[]}\n",
@@ -391,6 +397,7 @@ func main() {
 		{Name: "basm:romdata", Tool: "basm", Args: []string{"-o", "out.json", "data.basm"}, Inputs: []string{"data.basm"}, Outputs: []string{"out.json"}},
 		{Name: "basm:mov-chooser", Tool: "basm", Args: []string{"-chooser-min-word-size", "-o", "out.json", "movs.basm"}, Inputs: []string{"movs.basm"}, Outputs: []string{"out.json"}},
 		{Name: "basm:templated-fragment", Tool: "basm", Args: []string{"-o", "out.json", "tfrag.basm"}, Inputs: []string{"tfrag.basm"}, Outputs: []string{"out.json"}},
+		{Name: "basm:helper-module-opcodes", Tool: "basm", Args: []string{"-o", "out.json", "helper.basm"}, Inputs: []string{"helper.basm"}, Outputs: []string{"out.json"}},
 		{Name: "neuralbond:testsmall", Tool: "neuralbond", Args: []string{"-net-file", "net-testsmall.json", "-config-file", "cfg.json", "-neuron-lib-path", "/repo/library/neurons", "-save-basm", "nn.basm"}, Inputs: []string{"net-testsmall.json", "cfg.json"}, Outputs: []string{"nn.basm", "cfg.json"}},
 		{Name: "neuralbond:testsmall-fragment", Tool: "neuralbond", Args: []string{"-net-file", "net-testsmall.json", "-config-file", "cfg.json", "-neuron-lib-path", "/repo/library/neurons", "-operating-mode", "fragment", "-save-basm", "nn.basm"}, Inputs: []string{"net-testsmall.json", "cfg.json"}, Outputs: []string{"nn.basm", "cfg.json"}},
 		{Name: "bmqsim:bell", Tool: "bmqsim", Args: []string{"-build-matrix-seq-hardcoded", "-hw-flavor", "seq_hardcoded_real", "-save-basm", "q.basm", "program.bmq"}, Inputs: []string{"program.bmq"}, Outputs: []string{"q.basm"}},
@@ -406,6 +413,10 @@ func main() {
 		{"basm:a", "out.json", toolCase{Name: "create-verilog:a", Tool: "bondmachine", Args: []string{"-bondmachine-file", "a.json", "-create-verilog", "-verilog-flavor", "iverilog", "-verilog-simulation", "-simbox-file", "sb.json"}, Inputs: []string{"a.json", "sb.json"}, Outputs: []string{"*.v"}}},
 		{"basm:two-cps", "out.json", toolCase{Name: "create-verilog:two-cps", Tool: "bondmachine", Args: []string{"-bondmachine-file", "two.json", "-create-verilog", "-verilog-flavor", "iverilog", "-verilog-simulation", "-simbox-file", "sb.json"}, Inputs: []string{"two.json", "sb.json"}, Outputs: []string{"*.v"}}},
 	}
+	chained = append(chained, struct {
+		from, file string
+		c          toolCase
+	}{"basm:helper-module-opcodes", "out.json", toolCase{Name: "create-verilog:helper-module-opcodes", Tool: "bondmachine", Args: []string{"-bondmachine-file", "helper.json", "-create-verilog", "-verilog-flavor", "iverilog", "-verilog-simulation", "-simbox-file", "sb.json"}, Inputs: []string{"helper.json", "sb.json"}, Outputs: []string{"*.v"}}})
 	if run.Thorough() {
 		cases = append(cases, toolCase{Name: "neuralbond:testnormal", Tool: "neuralbond", Args: []string{"-net-file", "net-testnormal.json", "-config-file", "cfg.json", "-neuron-lib-path", "/repo/library/neurons", "-save-basm", "nn.basm"}, Inputs: []string{"net-testnormal.json", "cfg.json"}, Outputs: []string{"nn.basm", "cfg.json"}})
 	}
@@ -507,6 +518,14 @@ func main() {
 		}
 		for _, sd := range seeds {
 			devs = append(devs, deviation{ci.c, policy{Seed: sd}})
+		}
+		// the clock: one second, one hour and a few years later
+		clocks := []int64{1, 3600}
+		if run.Thorough() {
+			clocks = []int64{1, 59, 3600, 86400 * 365 * 3}
+		}
+		for _, ck := range clocks {
+			devs = append(devs, deviation{ci.c, policy{Clock: ck}})
 		}
 	}
 	type found struct {
@@ -612,6 +631,10 @@ func main() {
 		ci := infos[f.d.c.Name]
 		where := "hash-seed"
 		detail := fmt.Sprintf("map hash seed %d", f.d.p.Seed)
+		if f.d.p.Clock != 0 {
+			where = "wall-clock"
+			detail = fmt.Sprintf("process started %d s later", f.d.p.Clock)
+		}
 		if f.d.p.PC != "" {
 			sym := ci.syms[f.d.p.PC]
 			where = funcOnly(sym)
@@ -621,8 +644,12 @@ func main() {
 				detail += " and at " + ci.syms[f.d.p.PC2]
 			}
 		}
-		run.Report("C07|"+f.d.c.Tool+"|"+where, fmt.Sprintf("[%s] output depends on map iteration order: %s: %s", f.d.c.Name, detail, f.diff),
-			map[string]any{"case": f.d.c, "policy": f.d.p, "env": "VERIF_MAP=" + f.d.p.env()})
+		what := "map iteration order"
+		if f.d.p.Clock != 0 {
+			what = "the clock"
+		}
+		run.Report("C07|"+f.d.c.Tool+"|"+where, fmt.Sprintf("[%s] output depends on %s: %s: %s", f.d.c.Name, what, detail, f.diff),
+			map[string]any{"case": f.d.c, "policy": f.d.p, "env": fmt.Sprintf("VERIF_MAP=%s VERIF_CLOCK=%d", f.d.p.env(), baseClock+f.d.p.Clock)})
 	}
 	var per []map[string]any
 	nd := 0
@@ -637,10 +664,11 @@ func main() {
 	}
 	run.Set("cases", per)
 	run.Set("distinct_nontrivial", nd)
-	run.Set("rule", "one evaluation = one fresh process of a real tool under one map-order policy; distinct_nontrivial = distinct (case, range site) pairs whose deviation was executed and left the output unchanged; deviations that change the output are violations")
+	run.Set("rule", "one evaluation = one fresh process of a real tool under one policy (map order, hash seed, clock); distinct_nontrivial = distinct (case, range site) pairs whose deviation was executed and left the output unchanged; deviations that change the output are violations")
 	run.Set("exhaustive", true)
 	run.Set("bounds", "all single-site deviations (2 rotations quick / 7 thorough, per-event deviations and 3 seeds thorough), pairs of sites on small cases (thorough)")
-	run.Assume("map iteration start and hash seeds are the only nondeterminism owned here; goroutine schedules of bondgo are decided by C12, and bondgo runs that hang (C12's known deadlock) are retried")
+	run.Assume("the wall clock is owned too: every tool process sees time.Now() start at a fixed instant (VERIF_CLOCK, patched time.Now in the overlay) and the deviations start it 1 s / 1 h / years later; math/rand seeded from the clock follows")
+	run.Assume("map iteration start, hash seeds and the wall clock are the nondeterminism owned here; goroutine schedules of bondgo are decided by C12, and bondgo runs that hang (C12's known deadlock) are retried")
 	run.Assume("every explored order is one a production run can produce: Go's iteration order is fully determined by (hash seed, start bucket, start offset)")
 	finish()
 }
